@@ -48,6 +48,7 @@ ASSUMPTIONS = ['an "empty" provider answer is the library\'s empty marker False;
                'clock advance is simulated by shifting datetime.now()/time.time() inside bitcoinlib.services.services',
                'a failure is any raised exception, or False/None where a payload is expected (DESIGN 2.4)',
                'after an error-limit stop with results in hand both outcomes (first result / failure) conform',
+               'sqlite cache databases run with PRAGMA synchronous=OFF / journal_mode=MEMORY (set by the harness on connect; speed only)',
                'blockcount() may repeat a failure without asking providers again while the previous attempt is younger '
                'than BLOCK_COUNT_CACHE_TIME']
 EXHAUSTIVE = ['fault plans {ok,exc,empty,malformed}^k x all k! priority orders x 14 methods for k<=3 (quick) and k<=4 (thorough), cold cache']
@@ -105,22 +106,26 @@ class Chain:
         self._mk('t3', [('t1', None, 0, 'A', None)], [('C', 20000003), ('A', 29990003)], 800002, 0)
         self._mk('t4', [('t2', None, 1, 'B', None)], [('C', 6990004)], 800003, 0)
         self._mk('t5', [('ext', ext('e5'), 0, 'Z', 7010005)], [('B', 3000005), ('C', 4000005)], 800004, 0)
+        # later blocks: only visible to the providers once the run's chain has grown (epoch 1 / 2)
+        self._mk('t7', [('ext', ext('e7'), 0, 'Z', 4010007)], [('C', 2500007), ('A', 1500007)], 800005, 0, epoch=1)
+        self._mk('t8', [('ext', ext('e8'), 2, 'Z', 1710008)], [('B', 800008), ('C', 900008)], 800006, 0, epoch=2)
         self._mk('t6', [('t3', None, 0, 'C', None)], [('Z', 19990006)], None, None)
         self.by_txid = {t['txid']: n for n, t in self.txs.items()}
         self.blocks = {}
         prev = hashlib.sha256(b'c20-genesis').hexdigest()
-        for bn, (h, names) in enumerate([(800001, ['t1', 't2']), (800002, ['t3']), (800003, ['t4']), (800004, ['t5'])]):
+        for bn, (h, names) in enumerate([(800001, ['t1', 't2']), (800002, ['t3']), (800003, ['t4']), (800004, ['t5']), (800005, ['t7']), (800006, ['t8'])]):
             bh = '0000' + hashlib.sha256(b'c20-block-%d' % h).hexdigest()[4:]
             mr = rtx.merkle_root([bytes.fromhex(self.txs[n]['txid'])[::-1] for n in names])[::-1].hex()
             self.blocks['b%d' % (bn + 1)] = {'hash': bh, 'height': h, 'txs': names, 'prev': prev, 'merkle': mr,
-                                             'time': T0 - 100000 + h, 'bits': 0x1d00ffff, 'version': 0x20000000}
+                                             'time': T0 - 100000 + h, 'bits': 0x1d00ffff, 'version': 0x20000000,
+                                             'epoch': max(self.txs[n]['epoch'] for n in names)}
             prev = bh
 
     def spk(self, name):
         h = self.keys[name][2]
         return rchain.script_witness(0, h) if name in self.segwit else rchain.script_p2pkh(h)
 
-    def _mk(self, name, ins, outs, height, index):
+    def _mk(self, name, ins, outs, height, index, epoch=0):
         tins = []
         meta = []
         for kind, txid_i, n, owner, value in ins:
@@ -143,15 +148,17 @@ class Chain:
         t = rtx.tx(version=2, ins=tins, outs=touts, locktime=0)
         raw = rtx.serialize(t)
         self.txs[name] = {'name': name, 'raw': raw.hex(), 'txid': rtx.txid(t), 'ins': meta, 'outs': list(outs),
-                          'height': height, 'index': index}
+                          'height': height, 'index': index, 'epoch': epoch}
         self.order.append(name)
 
     # chain truths used by the oracle
-    def txs_of(self, a, confirmed_only=False):
+    def txs_of(self, a, confirmed_only=False, epoch=None):
         out = []
         for n in self.order:
             t = self.txs[n]
             if confirmed_only and not t['height']:
+                continue
+            if epoch is not None and t['epoch'] > epoch:
                 continue
             if any(i['owner'] == a for i in t['ins']) or any(o == a for o, _ in t['outs']):
                 out.append(n)
@@ -167,11 +174,11 @@ class Chain:
                     return m
         return None
 
-    def utxos_of(self, a):
+    def utxos_of(self, a, epoch=None):
         out = []
         for name in self.order:
             t = self.txs[name]
-            if not t['height']:
+            if not t['height'] or (epoch is not None and t['epoch'] > epoch):
                 continue
             for n, (o, v) in enumerate(t['outs']):
                 if o == a and not self.spent_by(name, n):
@@ -188,6 +195,20 @@ class Chain:
                 t = self.txs[m]
                 bal += sum(v for o, v in t['outs'] if o == a) - sum(i['value'] for i in t['ins'] if i['owner'] == a)
             c.add(bal)
+        return c
+
+    def utxo_count_candidates(self, a, allow_empty=True):
+        """numbers of unspent outputs of `a` derivable from (a prefix of) its confirmed history"""
+        names = self.txs_of(a, True)
+        c = set()
+        for cut in range(0 if allow_empty else 1, len(names) + 1):
+            part = names[:cut]
+            n_un = 0
+            for m in part:
+                for n, (o, v) in enumerate(self.txs[m]['outs']):
+                    if o == a and self.spent_by(m, n) not in part:
+                        n_un += 1
+            c.add(n_un)
         return c
 
 
@@ -223,6 +244,9 @@ class World:
         self.poisoned = False
         self.default_fee_stored = set()
         self.last_bc_failed = False
+        self.epoch = 0
+        self.spent_info = bool(case.get('spent_info'))
+        self.reg_whole = {}      # address -> [(sum, count)] of provider utxo answers that covered the whole address
         self.salt = 0
 
     def kind(self, pid, method):
@@ -296,8 +320,9 @@ def _fake_module():
             t.status = 'unconfirmed'
             t.confirmations = 0
             t.date = None
-        for o in t.outputs:
-            o.spent = None                      # unknown to the provider, as in the real clients
+        for n_o, o in enumerate(t.outputs):
+            # most real clients do not know (None); some report the spent status they see on the chain
+            o.spent = (W.c.spent_by(name, n_o) is not None) if W.spent_info else None
         t.update_totals()
         W.reg_tx.setdefault(t.txid, []).append(fp_tx(t))
         return t
@@ -334,28 +359,30 @@ def _fake_module():
             return [str(txid)] if c.by_txid.get(txid) == 't6' else []
         if method == 'getrawtransaction':
             n = c.by_txid.get(args[0])
-            if n is None:
+            if n is None or c.txs[n]['epoch'] > W.epoch:
                 raise FakeRaised('unknown txid')
             return ''.join(list(c.txs[n]['raw']))          # a fresh str object per answer
         if method == 'gettransaction':
             n = c.by_txid.get(args[0])
-            if n is None:
+            if n is None or c.txs[n]['epoch'] > W.epoch:
                 raise FakeRaised('unknown txid')
             return view_tx(n, tag)
         if method == 'gettransactions':
             address, after_txid, limit = args
             a = name_of_addr(address)
-            names = c.txs_of(a)
+            names = c.txs_of(a, epoch=W.epoch)
             if after_txid and c.by_txid.get(after_txid) in names:
                 names = names[names.index(c.by_txid[after_txid]) + 1:]
             return [view_tx(n, tag) for n in names[:limit]]
         if method == 'getutxos':
             address, after_txid, limit = args
             a = name_of_addr(address)
-            us = c.utxos_of(a)
+            us = c.utxos_of(a, epoch=W.epoch)
             if after_txid and c.by_txid.get(after_txid) in [u[0] for u in us]:
                 idx = [u[0] for u in us].index(c.by_txid[after_txid])
                 us = us[idx + 1:]
+            elif not after_txid and len(us) <= limit:
+                W.reg_whole.setdefault(address, []).append((sum(u[2] for u in us), len(us)))
             out = []
             for name, n, v in us[:limit]:
                 t = c.txs[name]
@@ -369,7 +396,7 @@ def _fake_module():
             for bb in c.blocks.values():
                 if bb['height'] == blockid or bb['hash'] == blockid:
                     b = bb
-            if b is None:
+            if b is None or b['epoch'] > W.epoch:
                 raise FakeRaised('unknown block')
             names = b['txs'][(page - 1) * limit: page * limit] if limit else []
             txs = [view_tx(n, tag) for n in names] if parse_transactions else [c.txs[n]['txid'] for n in names]
@@ -490,6 +517,20 @@ def _install():
             rec['results'] = dict(self.results)
             rec['errors'] = dict(self.errors)
     S.Service._provider_execute = probe
+
+    # -- durability is irrelevant here: no fsync per commit on the per-run cache databases (harness-side pragma)
+    from sqlalchemy import event
+    from sqlalchemy.engine import Engine
+
+    def _pragmas(dbapi_conn, _rec):
+        try:
+            cur = dbapi_conn.cursor()
+            cur.execute('PRAGMA synchronous=OFF')
+            cur.execute('PRAGMA journal_mode=MEMORY')
+            cur.close()
+        except Exception:
+            pass
+    event.listen(Engine, 'connect', _pragmas)
 
     # -- template cache database (schema only), copied for every run
     d = os.environ['BCL_DATA_DIR']
@@ -682,7 +723,7 @@ def judge_call(callrec, col, case):
                 cached = [a for a in spec['addrs_real'] if a not in asked]
                 for a in cached:
                     name = [n for n, s in c.addr.items() if s == a][0]
-                    cc = c.balance_candidates(name) | set(W.reg_bal.get(a, []))
+                    cc = _stored_balance_candidates(a, name)
                     sums = {s + v for s in sums for v in cc}
                     col.probe('cache_served')
             if not ok or not any(_same(ret, s) for s in sums):
@@ -698,7 +739,7 @@ def judge_call(callrec, col, case):
                     part = {s_ + v for s_ in part for v in vals}
                 for a in [a for a in spec['addrs_real'] if a not in asked]:
                     name = [n for n, s_ in c.addr.items() if s_ == a][0]
-                    part = {s_ + v for s_ in part for v in (c.balance_candidates(name) | set(W.reg_bal.get(a, [])))}
+                    part = {s_ + v for s_ in part for v in _stored_balance_candidates(a, name)}
                 if lim and type(ret) in (int, float) and any(_same(ret, s_) for s_ in part):
                     key = K_LIMIT_BALANCE
             elif len(execs) == 1 and len(execs[0]['args'][0]) == 1 and fresh[0]:
@@ -800,6 +841,48 @@ def _blockcount_cache_valid():
         return None
     now = (datetime.now() + timedelta(seconds=_Clock.shift)).strftime('%Y-%m-%d %H:%M:%S.%f')
     return any(str(r[1]) > now for r in rows)
+
+
+def _stored_balance_candidates(addr, name):
+    """Balances a provider reported for the whole address, or derivable from a (prefix of the) history providers gave."""
+    W = _state['W']
+    return W.c.balance_candidates(name) | set(W.reg_bal.get(addr, [])) | {s_ for s_, _ in W.reg_whole.get(addr, [])}
+
+
+def check_address_records(callrec, col, case):
+    """Provenance of every number in the stored address records (read through Service.getcacheaddressinfo)."""
+    W = _state['W']
+    srv = callrec.get('srv')
+    if srv is None or W.poisoned:
+        return
+    c = W.c
+    names = ['A', 'B', 'C']
+    for name in names:
+        addr = c.addr[name]
+        try:
+            info = srv.getcacheaddressinfo(addr)
+        except Exception as e:
+            col.violation(None, 'getcacheaddressinfo raised %s' % _short(e), dict(case, failing_call=callrec['index']), _short(e), 'address record')
+            continue
+        if not isinstance(info, dict) or len(info) <= 1:
+            continue
+        col.probe('address_record')
+        seen_any = any(c.txs[n]['txid'] in W.reg_tx for n in c.txs_of(name))
+        bal = info.get('balance')
+        if bal is not None and not (bal == 0 or any(_same(bal, v) for v in _stored_balance_candidates(addr, name))):
+            col.violation(None, 'stored balance %s of address %s after %s: no provider reported it for the address and it is not '
+                          'derivable from the history providers gave' % (_short(bal), name, callrec['m']),
+                          dict(case, failing_call=callrec['index']), info, sorted(_stored_balance_candidates(addr, name))[:12])
+        nu = info.get('n_utxos')
+        ok_n = c.utxo_count_candidates(name, allow_empty=not seen_any) | {n_ for _, n_ in W.reg_whole.get(addr, [])}
+        if nu is not None and nu not in ok_n:
+            col.violation(None, 'stored utxo count %s of address %s after %s: the address never had that many unspent outputs '
+                          'in any provider answer' % (_short(nu), name, callrec['m']),
+                          dict(case, failing_call=callrec['index']), info, sorted(ok_n))
+        nt = info.get('n_txs')
+        if nt is not None and not (0 <= nt <= len(c.txs_of(name))):
+            col.violation(None, 'stored transaction count %s of address %s exceeds its history' % (_short(nt), name),
+                          dict(case, failing_call=callrec['index']), info, len(c.txs_of(name)))
 
 
 def _confirmations_problem(t):
@@ -1013,6 +1096,7 @@ def run_case(case, col):
             m = call['m']
             spec = dict(call.get('a') or {})
             _Clock.shift += call.get('adv', 0)
+            W.epoch = min(2, W.epoch + call.get('grow', 0))      # new blocks become visible to the providers
             W.plans = {k: list(v) for k, v in (call.get('plans') or {}).items()}
             W.callno = idx
             e0 = len(W.executes)
@@ -1046,6 +1130,8 @@ def run_case(case, col):
                 if r['method'] == 'blockcount':
                     W.last_bc_failed = r['failed']
             judge_call(callrec, col, case)
+            if m != 'construct':
+                check_address_records(callrec, col, case)
             invoked = len(W.log) > l0
             pat = pattern(m if m != 'construct' else 'blockcount', W.plans)
             cls = '%s/%s/%s' % (m, 'seq%d' % min(idx, 2) if idx else 'ctor', cstate)
@@ -1137,7 +1223,8 @@ def make_enum_case(n, k, kinds, perm, m, seed, variant=0):
         minp, maxp = 1, 1
     prio = [10 * (k - perm.index(i)) for i in range(k)]
     prim = PRIMARY.get(m, m)
-    case = {'net': net, 'prio': prio, 'me': me, 'minp': minp, 'maxp': maxp, 'rs': rnd.randrange(10 ** 6), 'calls': []}
+    case = {'net': net, 'prio': prio, 'me': me, 'minp': minp, 'maxp': maxp, 'rs': rnd.randrange(10 ** 6), 'calls': [],
+            'spent_info': rnd.random() < 0.5}
     if m == 'blockcount':
         case['ctor'] = {'blockcount': list(kinds)}
         # second look after the stored count expired, same plan; then a changed plan
@@ -1180,7 +1267,9 @@ def make_random_case(rnd, thorough):
             plans['blockcount'] = plan()
         if m == 'getinputvalues' and rnd.random() < 0.5:
             plans['gettransaction'] = plan()
-        case['calls'].append({'m': m, 'a': spec, 'plans': plans, 'adv': rnd.choice([0, 0, 0, 4, 61, 61, 700])})
+        case['calls'].append({'m': m, 'a': spec, 'plans': plans, 'adv': rnd.choice([0, 0, 0, 4, 61, 61, 700]),
+                              'grow': rnd.choice([0, 0, 0, 1])})
+    case['spent_info'] = rnd.random() < 0.5
     return case
 
 
@@ -1237,6 +1326,42 @@ def gen_cache_scenarios():
     return out
 
 
+def gen_record_scenarios():
+    """Multi-method families: method A warms the cache, the chain may grow, method B (a query that writes the stored
+    address record) runs, methods C read the record back (directly, and with every provider failing)."""
+    out = []
+    first_tx = {'A': 't1', 'B': 't2', 'C': 't3'}
+    n = 0
+    for addr in ('A', 'B', 'C'):
+        warms = [[{'m': 'gettransactions', 'a': {'addr': addr}}],
+                 [{'m': 'gettransactions', 'a': {'addr': addr, 'limit': 2}}],
+                 [{'m': 'getblock', 'a': {'blk': 'b1'}}, {'m': 'getblock', 'a': {'blk': 'b2'}}, {'m': 'getblock', 'a': {'blk': 'b3'}},
+                  {'m': 'getblock', 'a': {'blk': 'b4'}}, {'m': 'getutxos', 'a': {'addr': addr}}],
+                 [{'m': 'gettransaction', 'a': {'tx': first_tx[addr]}}, {'m': 'getutxos', 'a': {'addr': addr}}]]
+        writers = [{'m': 'getutxos', 'a': {'addr': addr}}, {'m': 'getutxos', 'a': {'addr': addr, 'limit': 1}},
+                   {'m': 'getutxos', 'a': {'addr': addr, 'after': first_tx[addr]}}, {'m': 'gettransactions', 'a': {'addr': addr}},
+                   {'m': 'gettransactions', 'a': {'addr': addr, 'limit': 1}}, {'m': 'getbalance', 'a': {'addrs': [addr]}}]
+        for spent_info in (True, False):
+            for warm in warms:
+                for grow in (0, 1, 2):
+                    for writer in writers:
+                        n += 1
+                        cs = {'net': NETS[n % 3], 'prio': [20, 10], 'me': 4, 'minp': 1, 'maxp': 1, 'rs': n, 'spent_info': spent_info,
+                              'calls': []}
+                        ok = ['ok', 'ok']
+                        wplan = [ok, ['exc', 'ok'], ['ok', 'empty']][n % 3]
+                        for w in warm:
+                            cs['calls'].append({'m': w['m'], 'a': dict(w['a']), 'plans': {w['m']: ok}})
+                        cs['calls'].append({'m': writer['m'], 'a': dict(writer['a']), 'plans': {writer['m']: wplan}, 'grow': grow})
+                        cs['calls'].append({'m': 'getbalance', 'a': {'addrs': [addr]}, 'plans': {'getbalance': ok}})
+                        cs['calls'].append({'m': 'getutxos', 'a': {'addr': addr}, 'plans': {'getutxos': ok}, 'grow': n % 2})
+                        cs['calls'].append({'m': 'getbalance', 'a': {'addrs': [addr]}, 'plans': {'getbalance': ['exc', 'exc']}})
+                        cs['calls'].append({'m': 'gettransactions', 'a': {'addr': addr}, 'plans': {'gettransactions': ok}})
+                        cs['calls'].append({'m': 'getbalance', 'a': {'addrs': [addr], 'as_str': True}, 'plans': {'getbalance': ['empty', 'exc']}})
+                        out.append(cs)
+    return out
+
+
 def plan(tier, seed, scale=1.0):
     thorough = tier == 'thorough'
     nshard = 16
@@ -1251,7 +1376,7 @@ def run_shard(spec, col):
     except Exception as e:
         col.note_inconclusive('reference self-check failed: %r' % (e,))
         return
-    for p in ('failover_loop', 'api_call', 'cache_served', 'no_network_guard'):
+    for p in ('failover_loop', 'api_call', 'cache_served', 'no_network_guard', 'address_record'):
         col.require(p)
     sh, ns = spec['shard'], spec['nshard']
     tier, seed = spec.get('tier', 'quick'), spec['seed']
@@ -1267,6 +1392,11 @@ def run_shard(spec, col):
     # B. scripted cache scenarios
     for j, cs in enumerate(gen_cache_scenarios()):
         if j % ns == sh and (thorough or j % 3 == seed % 3):
+            run_case(cs, col)
+    # B2. warm -> write address record -> read families
+    for j, cs in enumerate(gen_record_scenarios()):
+        if j % ns == sh:
+            cs = dict(cs, rs=cs['rs'] + 1000 * seed, me=MAX_ERRORS[(j + seed) % 4])
             run_case(cs, col)
     # C. random sequences
     rnd = random.Random('%s-%d-%d' % (ID, seed, sh))
